@@ -11,18 +11,26 @@ TB = ("Trusted base: Coq 8.16.1 kernel + vm_compute (no native_compute); axioms 
       "correspondence harness; oracles listed in DESIGN.md 2.4 (spsolve, scipy newton, interp1d, pandas, networkx, "
       "numba codegen, pandapower) are modelled, not verified.")
 
-CLAIMS = {
-    "C14": {
-        "text": "Unbounded theorems (any layers, any keys) about an executable Coq model of init_options: precedence, "
-                "iter expansion, every coupling, unknown-key pass-through; documented defaults = code defaults decided "
-                "by computation on tables regenerated from the source on every run. The model is tied to the code by "
-                "an exhaustive correspondence over all presence patterns evaluated inside Coq.",
-        "note": "All eight theorems are closed under the global context (no axioms). " + TB +
-                " Python truthiness of non-bool/int/str/None option values is modelled as true.",
-        "technique": "Coq proof over hand-written model + exhaustive model/implementation correspondence + generated tables",
-        "design": "DESIGN.md 4/C14",
-    },
-}
+def load_claims():
+    """each finished property module tools/props/cXX.py defines CLAIM = {text, note, technique, design}"""
+    import importlib
+    import sys
+    sys.path.insert(0, os.path.join(VERIF, "tools"))
+    out = {}
+    for pid in ALL:
+        try:
+            mod = importlib.import_module("props." + pid.lower())
+        except ModuleNotFoundError:
+            continue
+        c = getattr(mod, "CLAIM", None)
+        if c:
+            c = dict(c)
+            c["note"] = c["note"] + " " + TB
+            out[pid] = c
+    return out
+
+
+CLAIMS = load_claims()
 
 NOT_YET = "check not built yet in this round; see DESIGN.md section 4 for the planned model and theorems"
 
